@@ -244,3 +244,46 @@ Proof.
   destruct Hat' as [Hrd' _]. rewrite Hrd'. f_equal. lia.
 Qed.
 
+(** * [read_to_bytes] after some of the body has been read through [AsyncRead]: the rest of it, exactly *)
+
+Lemma body_rest_exact_lemma : forall grow mode early cl limit stream sched ws data b' r',
+  grow_ok grow -> sched_pos sched -> Forall (fun w => 0 < w) ws ->
+  cl <= length early + Nat.min (sum_sched sched) (length stream) ->
+  hb_reads mode (hb_new early cl) (mk_reader stream sched) ws = (data, b', r', None) ->
+  exists b'' r'', hb_read_to_bytes grow mode b' r' limit =
+     Ok (firstn (N.to_nat limit) (skipn (length data) (firstn cl (early ++ stream))), b'', r'').
+Proof.
+  intros grow mode early cl limit stream sched ws data b' r' Hg Hp Hws Hd Hr.
+  set (d := Nat.min (sum_sched sched) (length stream)) in *.
+  assert (Hinv : hb_inv2 early cl stream d (hb_new early cl) (mk_reader stream sched)).
+  { split; [apply hb_inv_new|]. cbn [hb_new hb_offset Nat.sub]. apply rd_at_start. exact Hp. }
+  destruct (hb_reads_progress mode early cl stream d ws _ _ Hinv Hws Hd) as [data2 [b2 [r2 [Hr2 [Hinv' _]]]]].
+  rewrite Hr in Hr2. inversion Hr2; subst data2 b2 r2. clear Hr2.
+  destruct (hb_reads_inv mode early cl stream ws _ _ _ _ _ _ (hb_inv_new early cl stream sched) Hr) as [_ [Ho _]].
+  cbn [hb_new hb_offset Nat.add] in Ho.
+  destruct Hinv' as [[Hb [Hc [Hle [Hrd Hu]]]] Hat].
+  set (o := hb_offset b') in *. set (le := length early) in *.
+  assert (HdS : d <= length stream) by (subst d; qlia).
+  assert (Hpd : o - le <= d) by (destruct Hat as [_ [_ [? _]]]; assumption).
+  (* the right-hand side as a prefix of what is left *)
+  assert (Hrhs : firstn (N.to_nat limit) (skipn (length data) (firstn cl (early ++ stream))) =
+                 firstn (Nat.min (cl - o) (N.to_nat limit)) (skipn o early ++ skipn (o - le) stream)).
+  { rewrite <- Ho. rewrite skipn_firstn_comm, firstn_firstn, skipn_app. fold le. f_equal. qlia. }
+  rewrite Hrhs. unfold hb_read_to_bytes. rewrite Hb, Hc. fold o.
+  assert (Hneed : N.to_nat (N.min (N.of_nat (cl - o)) limit) = Nat.min (cl - o) (N.to_nat limit)) by qlia.
+  rewrite Hneed.
+  destruct (Nat.eqb (Nat.min (cl - o) (N.to_nat limit)) 0) eqn:E0.
+  { apply Nat.eqb_eq in E0. rewrite E0. cbn [firstn]. eexists. eexists. reflexivity. }
+  apply Nat.eqb_neq in E0.
+  pose proof (read_to_bytes_exact grow Hg mode (skipn o early) (N.of_nat (cl - o)) limit stream d (o - le) r' Hat) as Hx.
+  unfold body_spec in Hx. rewrite Hneed in Hx.
+  assert (Hl1 : length (skipn o early) = le - o) by (rewrite skipn_length; reflexivity).
+  assert (Hl2 : length (firstn (d - (o - le)) (skipn (o - le) stream)) = d - (o - le)).
+  { rewrite firstn_length, skipn_length. qlia. }
+  rewrite Hl1, Hl2 in Hx.
+  destruct (Nat.leb (Nat.min (cl - o) (N.to_nat limit)) (le - o + (d - (o - le)))) eqn:E1; [|apply Nat.leb_gt in E1; qlia].
+  apply Nat.leb_le in E1.
+  destruct Hx as [r'' [Hx _]]. rewrite Hx. eexists. exists r''. f_equal. f_equal. f_equal.
+  rewrite !firstn_app, Hl1. f_equal.
+  rewrite firstn_firstn. f_equal. qlia.
+Qed.
